@@ -46,6 +46,53 @@ class _Scalar(Tr):
         return super().expr(e)
 
 
+_MODULE = {}
+
+
+def _module_def(fn, name):
+    mod = _MODULE.get('detector')
+    for n in (mod.body if mod is not None else []):
+        if isinstance(n, ast.FunctionDef) and n.name == name:
+            return n
+    raise Untranslatable(f'helper {name} not found in the module')
+
+
+def _width_chain(stmts, var, how):
+    """`if var <= 8: <uint8> elif/if var <= 16: <uint16> ... else/then raise` -> Lean if-chain on `bits`.
+    how='assign': arms are `output = output.astype(np.uintN)`; how='return': arms are `return np.uintN`."""
+    arms = []
+    todo = list(stmts)
+    while todo:
+        node = todo.pop(0)
+        if isinstance(node, ast.Raise):
+            if todo:
+                raise Untranslatable('statements after the raise of the container-width chain')
+            break
+        if not (isinstance(node, ast.If) and isinstance(node.test, ast.Compare) and ast.unparse(node.test.left) == var
+                and len(node.test.ops) == 1 and isinstance(node.test.ops[0], ast.LtE) and isinstance(node.test.comparators[0], ast.Constant)
+                and len(node.body) == 1):
+            raise Untranslatable('container-width chain')
+        b = node.body[0]
+        if how == 'assign':
+            v = b.value if isinstance(b, ast.Assign) and ast.unparse(b.targets[0]) == 'output' else None
+            if not (isinstance(v, ast.Call) and ast.unparse(v.func) == 'output.astype' and len(v.args) == 1):
+                raise Untranslatable('container-width branch')
+            dtn = ast.unparse(v.args[0])
+        else:
+            if not isinstance(b, ast.Return):
+                raise Untranslatable('container-width branch')
+            dtn = ast.unparse(b.value)
+        if not dtn.startswith('np.uint') or not dtn[7:].isdigit():
+            raise Untranslatable(f'cast to {dtn}')
+        arms.append((node.test.comparators[0].value, int(dtn[7:])))
+        todo = list(node.orelse) + todo
+    else:
+        raise Untranslatable('container-width chain does not end in raise')
+    if not arms:
+        raise Untranslatable('empty container-width chain')
+    return ''.join(f'if bits ≤ {lim} then {w} else ' for lim, w in arms) + '0'
+
+
 def expose_items(fn):
     """-> (adcCap term, castBits term, lets, result name)"""
     env = dict(SELF)
@@ -62,6 +109,15 @@ def expose_items(fn):
 
     stmts = [s for s in fn.body if not (isinstance(s, ast.Expr) and isinstance(s.value, ast.Constant))]
     for idx, s in enumerate(stmts):
+        if isinstance(s, ast.Assign) and ast.unparse(s.targets[0]) == 'output' and isinstance(s.value, ast.Call) \
+                and ast.unparse(s.value.func) == 'output.astype' and len(s.value.args) == 1 and isinstance(s.value.args[0], ast.Call) \
+                and isinstance(s.value.args[0].func, ast.Name) and [ast.unparse(a) for a in s.value.args[0].args] == ['self.bits']:
+            # output = output.astype(helper(self.bits)) with a same-module helper
+            helper = _module_def(fn, s.value.args[0].func.id)
+            (param,) = [a.arg for a in helper.args.args]
+            body = [b for b in helper.body if not (isinstance(b, ast.Expr) and isinstance(b.value, ast.Constant))]
+            cast = _width_chain(body, param, 'return')
+            return adc, cast, lets, env['output'], stmts[idx + 1:]
         if isinstance(s, ast.Assign) and len(s.targets) == 1 and isinstance(s.targets[0], ast.Name):
             name = s.targets[0].id
             if name == 'adc_cap':
@@ -90,29 +146,7 @@ def expose_items(fn):
                 bind(b.targets[0].id, _Scalar(env, mode='num').expr(b.value))
                 continue
             if test.startswith('self.bits <='):
-                # container width chain; everything before it is the analogue chain
-                arms = []
-                node = s
-                while True:
-                    if not (isinstance(node, ast.If) and isinstance(node.test, ast.Compare)
-                            and ast.unparse(node.test.left) == 'self.bits' and isinstance(node.test.ops[0], ast.LtE)):
-                        raise Untranslatable('container-width chain')
-                    (b,) = node.body
-                    v = b.value
-                    if not (isinstance(b, ast.Assign) and ast.unparse(b.targets[0]) == 'output' and isinstance(v, ast.Call)
-                            and ast.unparse(v.func) == 'output.astype'):
-                        raise Untranslatable('container-width branch')
-                    dt = ast.unparse(v.args[0])
-                    if not dt.startswith('np.uint'):
-                        raise Untranslatable(f'cast to {dt}')
-                    arms.append((node.test.comparators[0].value, int(dt[7:])))
-                    if len(node.orelse) == 1 and isinstance(node.orelse[0], ast.If):
-                        node = node.orelse[0]
-                        continue
-                    if len(node.orelse) == 1 and isinstance(node.orelse[0], ast.Raise):
-                        break
-                    raise Untranslatable('container-width chain does not end in raise')
-                cast = ''.join(f'if bits ≤ {lim} then {w} else ' for lim, w in arms) + '0'
+                cast = _width_chain([s], 'self.bits', 'assign')
                 return adc, cast, lets, env['output'], stmts[idx + 1:]
         raise Untranslatable(f'statement {ast.unparse(s)[:60]}')
     raise Untranslatable('no integer cast found')
@@ -130,16 +164,51 @@ def _slice_pair(node):
     return out
 
 
+class _Rename(ast.NodeTransformer):
+    def __init__(self, mapping):
+        self.mapping = mapping
+
+    def visit_Name(self, node):
+        return ast.copy_location(ast.Name(id=self.mapping.get(node.id, node.id), ctx=node.ctx), node)
+
+
 def _cfa_branches(fn):
-    """{cfa: [statements]} from `if cfa == 'rggb': ... elif cfa == 'bggr': ...`"""
+    """{cfa: [statements]} from `if cfa == 'rggb': ... elif cfa == 'bggr': ...`.  A branch may only choose names
+    (`first, last = r, b`) and leave the work to statements that follow the chain: the aliases are substituted into the rest
+    of the branch and into that common tail, which is appended to every branch (returns excluded)."""
     out = {}
+    top = None
     for n in ast.walk(fn):
         if isinstance(n, ast.If) and isinstance(n.test, ast.Compare) and ast.unparse(n.test.left) == 'cfa' \
                 and isinstance(n.test.ops[0], ast.Eq) and isinstance(n.test.comparators[0], ast.Constant):
             out.setdefault(n.test.comparators[0].value, n.body)
+            if top is None and n in fn.body:
+                top = n
     if sorted(out) != sorted(CFAS):
         raise Untranslatable(f'cfa branches {sorted(out)}')
-    return out
+    tail = []
+    if top is not None:
+        tail = [t for t in fn.body[fn.body.index(top) + 1:] if not isinstance(t, ast.Return)]
+    res = {}
+    for cfa, body in out.items():
+        mapping, rest = {}, []
+        for st in body:
+            t, v = (st.targets[0], st.value) if isinstance(st, ast.Assign) and len(st.targets) == 1 else (None, None)
+            if isinstance(t, ast.Name) and isinstance(v, ast.Name) and not rest:
+                mapping[t.id] = mapping.get(v.id, v.id)
+            elif isinstance(t, ast.Tuple) and isinstance(v, ast.Tuple) and len(t.elts) == len(v.elts) and not rest \
+                    and all(isinstance(x, ast.Name) for x in t.elts + v.elts):
+                old = dict(mapping)
+                for a, b in zip(t.elts, v.elts):
+                    mapping[a.id] = old.get(b.id, b.id)
+            else:
+                rest.append(st)
+        if mapping:
+            stmts = [ast.fix_missing_locations(_Rename(mapping).visit(ast.parse(ast.unparse(x)).body[0])) for x in rest + tail]
+        else:
+            stmts = rest + tail
+        res[cfa] = stmts
+    return res
 
 
 def _match(name, sig, arms):
@@ -155,6 +224,7 @@ def generate(repo):
             raise Untranslatable('forced by VERIF_FORCE_FALLBACK')
         g.item = lambda name, source, node_fn, build, fallback: _item(name, source, node_fn, _forced, fallback)
     dt, _ = load(repo, 'prysm/detector.py')
+    _MODULE['detector'] = dt
     by, _ = load(repo, 'prysm/bayer.py')
 
     # ------------------------------------------------------------------ Detector.expose
@@ -234,18 +304,54 @@ def generate(repo):
     g.fact('exposeFlattensInCOrder', 'prysm/detector.py:Detector.expose', flatten_order)
 
     # ------------------------------------------------------------------ bindown / tile
+    def interleave(e):
+        """`tuple(chain(*zip(A, B)))` / `tuple(chain.from_iterable(zip(A, B)))` / `tuple(x for p in zip(A, B) for x in p)` -> (A, B)"""
+        if not (isinstance(e, ast.Call) and ast.unparse(e.func) == 'tuple' and len(e.args) == 1):
+            return None
+        a = e.args[0]
+        z = None
+        if isinstance(a, ast.Call) and ast.unparse(a.func) in ('itertools.chain', 'chain') and len(a.args) == 1 \
+                and isinstance(a.args[0], ast.Starred):
+            z = a.args[0].value
+        elif isinstance(a, ast.Call) and ast.unparse(a.func) in ('itertools.chain.from_iterable', 'chain.from_iterable') and len(a.args) == 1:
+            z = a.args[0]
+        elif isinstance(a, ast.GeneratorExp) and len(a.generators) == 2 and isinstance(a.elt, ast.Name) \
+                and ast.unparse(a.generators[1].iter) == ast.unparse(a.generators[0].target) \
+                and ast.unparse(a.generators[1].target) == a.elt.id and not a.generators[0].ifs and not a.generators[1].ifs:
+            z = a.generators[0].iter
+        if isinstance(z, ast.Call) and ast.unparse(z.func) == 'zip' and len(z.args) == 2 and not z.keywords:
+            return ast.unparse(z.args[0]), ast.unparse(z.args[1])
+        return None
+
+    def branch_table(fn, var):
+        """{string constant: [statements of its branch]} of the if / elif chain that dispatches on `var` (compared directly or
+        after `.lower()`, which may have been hoisted into `var = var.lower()`)"""
+        table = {}
+        for n in ast.walk(fn):
+            if isinstance(n, ast.If):
+                t = ast.unparse(n.test).replace(f'{var}.lower()', var)
+                if t.startswith(f'{var} in ') or t.startswith(f'{var} == '):
+                    for c in ast.walk(n.test):
+                        if isinstance(c, ast.Constant) and isinstance(c.value, str):
+                            table.setdefault(c.value, n.body)
+        return table
+
+    PRODS = ('functools.reduce(lambda x, y: x * y, factor)', 'functools.reduce(lambda a, b: a * b, factor)',
+             'functools.reduce(operator.mul, factor)', 'functools.reduce(operator.mul, factor, 1)', 'np.prod(factor)', 'math.prod(factor)',
+             'int(np.prod(factor))')
+
     def bindown():
         fn = get_def(dt, 'bindown')
         outs = find_assigns(fn, 'output_shape')
         from pyexpr2lean import elementwise
         term = elementwise(outs[0], {'array.shape': 's', 'factor': 'f'})
-        src1 = ast.unparse(outs[1])
-        if src1 == 'tuple(itertools.chain(*zip(output_shape, factor)))':
+        il = interleave(outs[1]) if len(outs) > 1 else None
+        if il == ('output_shape', 'factor'):
             inter = True
-        elif src1 == 'tuple(itertools.chain(*zip(factor, output_shape)))':
+        elif il == ('factor', 'output_shape'):
             inter = False
         else:
-            raise Untranslatable(f'interleaved shape written as {src1}')
+            raise Untranslatable(f'interleaved shape written as {ast.unparse(outs[1]) if len(outs) > 1 else None}')
         red = find_assign(fn, 'reduction_axes')
         assert ast.unparse(red.func) == 'tuple' and ast.unparse(red.args[0].func) == 'range'
         tr = Tr({'array.ndim': 'ndim'})
@@ -254,13 +360,9 @@ def generate(repo):
             raise Untranslatable('intermediate view')
         view = True
         modes = {}
-        for n in ast.walk(fn):
-            if isinstance(n, ast.If) and 'mode.lower()' in ast.unparse(n.test):
-                (b,) = n.body
-                call = ast.unparse(b.value)
-                keys = [c.value for c in ast.walk(n.test) if isinstance(c, ast.Constant)]
-                for kk in keys:
-                    modes[kk] = call
+        for key, body in branch_table(fn, 'mode').items():
+            if len(body) == 1 and isinstance(body[0], ast.Assign):
+                modes[key] = ast.unparse(body[0].value)
         known = {'intermediate_view.mean(axis=reduction_axes)', 'intermediate_view.sum(axis=reduction_axes)'}
         if not set(modes.values()) <= known or not all(k in modes for k in ('avg', 'average', 'mean', 'sum')):
             raise Untranslatable(f'mode table {modes}')
@@ -280,32 +382,39 @@ def generate(repo):
         fn = get_def(dt, 'tile')
         from pyexpr2lean import elementwise
         term = elementwise(find_assign(fn, 'output_shape'), {'array.shape': 's', 'factor': 'f'})
-        ok = ast.unparse(find_assign(fn, 'shape2')) == 'tuple(itertools.chain(*zip(array.shape, factor)))' \
-            and ast.unparse(find_assign(fn, 'shape1')) == 'tuple(itertools.chain(*zip(slc, intermediate)))' \
-            and ast.unparse(find_assign(fn, 'slc')) == '(slice(s) for s in array.shape)' \
-            and ast.unparse(find_assign(fn, 'intermediate')) == '[None] * len(factor)' \
+        ok = interleave(find_assign(fn, 'shape2')) == ('array.shape', 'factor') \
+            and interleave(find_assign(fn, 'shape1')) == ('slc', 'intermediate') \
+            and ast.unparse(find_assign(fn, 'slc')) in ('(slice(s) for s in array.shape)', '[slice(s) for s in array.shape]') \
+            and ast.unparse(find_assign(fn, 'intermediate')) in ('[None] * len(factor)', '(None,) * len(factor)') \
             and [ast.unparse(v) for v in find_assigns(fn, 'view')][:2] == ['np.broadcast_to(array[shape1], shape2)',
                                                                          'view.reshape(output_shape)']
         if not ok:
             raise Untranslatable('broadcast view of tile not in the known shape')
-        # scale factors
-        sfs = find_assigns(fn, 'sf')
-        src = [ast.unparse(v) for v in sfs]
-        if src != ['functools.reduce(lambda x, y: x * y, factor)', '1 / sf', '1']:
-            raise Untranslatable(f'tile scale factors {src}')
-        conds = {}
-        for n in ast.walk(fn):
-            if isinstance(n, ast.If) and ast.unparse(n.test).startswith('scaling'):
-                keys = [c.value for c in ast.walk(n.test) if isinstance(c, ast.Constant)]
-                last = ast.unparse(n.body[-1].value)
-                for kk in keys:
-                    conds[kk] = last
-        if conds.get('sum') != '1 / sf' or any(conds.get(k) != '1' for k in ('avg', 'average', 'mean')):
-            raise Untranslatable(f'tile scaling table {conds}')
-        applied = any(ast.unparse(n) in ('view = view * sf', 'view = sf * view') for n in ast.walk(fn) if isinstance(n, ast.Assign))
+        # scale factor of each scaling mode, evaluated symbolically (Πfactor ↦ prodf)
+        table = branch_table(fn, 'scaling')
+        if not all(k in table for k in ('sum', 'avg', 'average', 'mean')):
+            raise Untranslatable(f'tile scaling table {sorted(table)}')
+
+        def sf_term(body):
+            env = {p_: 'prodf' for p_ in PRODS}
+            cur = None
+            for st in body:
+                if isinstance(st, ast.Assign) and ast.unparse(st.targets[0]) == 'sf':
+                    cur = Tr(dict(env, **({'sf': cur} if cur else {})), mode='num').expr(st.value)
+                else:
+                    raise Untranslatable(f'statement in a scaling branch: {ast.unparse(st)[:50]}')
+            if cur is None:
+                raise Untranslatable('scaling branch does not set sf')
+            return cur
+        t_sum = sf_term(table['sum'])
+        t_avg = {sf_term(table[k]) for k in ('avg', 'average', 'mean')}
+        if len(t_avg) != 1:
+            raise Untranslatable('avg / average / mean scale differently')
+        applied = any(ast.unparse(n) in ('view = view * sf', 'view = sf * view') for n in ast.walk(fn) if isinstance(n, ast.Assign)) \
+            or any(ast.unparse(n) in ('view *= sf',) for n in ast.walk(fn) if isinstance(n, ast.AugAssign))
         return (f'def tileOutLen (s f : Int) : Int := {term}\n\n'
-                'def tileScaleSum {K : Type} [Num K] (prodf : K) : K := ' + Tr({'sf': 'prodf'}, mode='num').expr(sfs[1]) + '\n\n'
-                'def tileScaleAvg {K : Type} [Num K] : K := ' + Tr({}, mode='num').expr(sfs[2]) + '\n\n'
+                'def tileScaleSum {K : Type} [Num K] (prodf : K) : K := ' + t_sum + '\n\n'
+                'def tileScaleAvg {K : Type} [Num K] : K := ' + t_avg.pop() + '\n\n'
                 f'def tileViewBroadcastsOverFactor : Bool := {"true" if ok and applied else "false"}')
     g.item('tile', 'prysm/detector.py:tile', lambda: get_def(dt, 'tile'), tile,
            f'def tileOutLen (s f : Int) : Int := {M}.tileOutLen s f\n'
@@ -444,8 +553,12 @@ def generate(repo):
                 if ast.unparse(a0) != 'img' or n.value.keywords:
                     raise Untranslatable('convolve of something else / with keywords')
                 name = n.targets[0].id
-                srcs[name] = {'Gest': 'gest', 'c1': 'c1', 'c2': 'c2', 'c3': 'c3'}[name]
-                kof[srcs[name]] = kvar[a1.id]
+                # which filtered image this is follows from the kernel it is made with, not from the name of the local
+                role = {'kernelGAtRB': 'gest', 'kernelRAtGInRB': 'c1', 'kernelRAtGInBR': 'c2', 'kernelRAtBInBB': 'c3'}[kvar[a1.id]]
+                if role in kof:
+                    raise Untranslatable(f'two images filtered with {kvar[a1.id]}')
+                srcs[name] = role
+                kof[role] = kvar[a1.id]
         if sorted(kof) != ['c1', 'c2', 'c3', 'gest']:
             raise Untranslatable(f'filtered images {sorted(kof)}')
         chan = {'red': 'red', 'green': 'green', 'blue': 'blue'}
@@ -455,6 +568,9 @@ def generate(repo):
             if isinstance(n, ast.Assign) and isinstance(n.targets[0], ast.Name) and n.targets[0].id in chan \
                     and isinstance(n.value, ast.Name) and n.value.id in srcs:
                 default[n.targets[0].id] = srcs[n.value.id]
+        for name, role in srcs.items():          # a channel that IS a filtered image (`green = ndimage.convolve(img, k)`)
+            if name in chan:
+                default[name] = role
 
         def take(stmts, cfas):
             for s in stmts:
@@ -516,14 +632,14 @@ def generate(repo):
                         perplane[0] = False          # every plane compared with the same entry: recognised wrong
                         env['sat'] = 'sat'
                         continue
-                    if nm == 'mx' and src == 'plane.max()':
-                        env['mx'] = 'mx'
+                    if src == 'plane.max()':
+                        env[nm] = 'mx'
                         continue
-                    env[nm] = Tr({**env, 'sat': 'sat', 'mx': 'mx'}, mode='num').expr(st.value)
+                    env[nm] = Tr({**env, 'sat': 'sat', 'plane.max()': 'mx'}, mode='num').expr(st.value)
                     continue
                 if isinstance(st, ast.If) and len(st.body) == 1 and not st.orelse \
                         and isinstance(st.body[0], ast.Assign) and ast.unparse(st.body[0].targets[0]) == 'ratio':
-                    tr = Tr({**env, 'sat': 'sat', 'mx': 'mx'}, mode='num')
+                    tr = Tr({**env, 'sat': 'sat', 'plane.max()': 'mx'}, mode='num')
                     term = f'(if {tr.cond(st.test)} then {tr.expr(st.body[0].value)} else ratio)'
                     continue
                 raise Untranslatable(f'limiting loop statement {ast.unparse(st)[:50]}')
